@@ -408,6 +408,10 @@ class JsonSchemaParser:
 
             if items is False:
                 addition = False
+                # the options of a Rule only count when it is parsed on its own (inside a data class the
+                # class's addition policy decides about extra items): their absence is a length limit as well
+                constraints = dict(constraints or {})
+                constraints['max_length'] = min(constraints.get('max_length', len(args)), len(args))
             elif items:
                 addition = self.parse_type(items, with_constraints=True)
 
